@@ -196,7 +196,10 @@ func c17Complement(N, L int) {
 func H_c17_complement_q() { c17Complement(5, 3) }
 func H_c17_complement_t() { c17Complement(7, 5) }
 
-// c17Range: all (start, end, step) over the full int range, result bounded to <= K elements.
+// c17Range: all (start, end, step) over the full int range; the mathematical result
+// is case-split on its number of elements L0 in 1..K (resource bound).  The
+// expected elements e_i = start + i*step are built by repeated addition; "e_i
+// does not overflow" is e_i > e_(i-1) (resp. <) and membership is e_i < end (resp. >).
 func c17Range(K int) {
 	start, end, step := rt.Int("start"), rt.Int("end"), rt.Int("step")
 	infinite := (end < start && step > 0) || (end > start && step < 0) || (end != start && step == 0)
@@ -206,11 +209,31 @@ func c17Range(K int) {
 		rt.Reach("end")
 		return
 	}
-	// resource bound: at most K elements
-	if rt.ConcreteBool(start < end) {
-		rt.Assume(uint64(end-start) <= uint64(K)*uint64(step))
-	} else if rt.ConcreteBool(start > end) {
-		rt.Assume(uint64(start-end) <= uint64(K)*uint64(-step) && step != -step)
+	if rt.ConcreteBool(start == end) {
+		r := Range(start, end, step)
+		rt.Check(len(r) == 0, "Range(start, start, step) must be empty")
+		rt.Reach("end")
+		return
+	}
+	asc := rt.ConcreteBool(start < end)
+	L0 := 1 + rt.Choice("count", K)
+	e := make([]int, L0)
+	e[0] = start
+	for i := 1; i < L0; i++ {
+		e[i] = e[i-1] + step
+		if asc {
+			rt.Assume(e[i] > e[i-1]) // no overflow
+			rt.Assume(e[i] < end)    // inside [start, end)
+		} else {
+			rt.Assume(e[i] < e[i-1])
+			rt.Assume(e[i] > end) // inside (end, start]
+		}
+	}
+	next := e[L0-1] + step
+	if asc {
+		rt.Assume(rt.Or(next < e[L0-1], next >= end)) // the next one overflows or leaves the range
+	} else {
+		rt.Assume(rt.Or(next > e[L0-1], next <= end))
 	}
 	var r SortedInts
 	p, msg := rt.Panics(func() { r = Range(start, end, step) })
@@ -218,20 +241,19 @@ func c17Range(K int) {
 	if p {
 		return
 	}
-	c17Sorted(r, "Range")
-	rt.Check(len(r) <= K, "Range: too many elements")
-	v := rt.Int("probe")
-	var want bool
-	if rt.ConcreteBool(start == end) {
-		want = false
-	} else if rt.ConcreteBool(start < end) {
-		// start + i*step in [start, end)
-		want = rt.And(rt.And(start <= v, v < end), uint64(v-start)%uint64(step) == 0)
-	} else {
-		// descending: start + i*step (step < 0) in (end, start]
-		want = rt.And(rt.And(end < v, v <= start), uint64(start-v)%uint64(-step) == 0)
+	L := len(r)
+	rt.Check(L == L0, "Range: wrong number of elements")
+	if L != L0 {
+		return
 	}
-	rt.Check(c17In(r, v) == want, "Range: wrong membership")
+	for i := 0; i < L; i++ {
+		if asc {
+			rt.Check(r[i] == e[i], "Range: wrong element")
+		} else {
+			rt.Check(r[L-1-i] == e[i], "Range: wrong element (a descending range must be start + i*step)")
+		}
+	}
+	c17Sorted(r, "Range")
 	rt.Reach("end")
 }
 
